@@ -3,5 +3,6 @@ CONSTANTS
   MaxTok = 0
   Mode = "nested"
   Depth = 3
+  DeepAll = FALSE
 INVARIANT GenInv
 CHECK_DEADLOCK FALSE
